@@ -132,10 +132,15 @@ def stripe(ctx: Ctx):
 def public(ctx: Ctx):
     sl = ctx.repo.cls("cubepart.py", "_Slice")
     for prop in ("row_share_sum", "column_share_sum", "total_share_sum"):
-        e = expand(ctx.repo, sl, prop, stop=lambda m: True)
+        from ..symex import fold
+
+        # private helper methods inlined (a shared `_assemble_share_sum(name)`), getattr with a literal name folded
+        e = fold(expand(ctx.repo, sl, prop, stop=lambda m: m.kind in ("lazyproperty", "property") or m.name in ("_assemble_matrix", "_assemble_marginal", "_assemble_vector") or not m.name.startswith("_")))
         want = f"self._assemble_matrix(self._measures.{prop}.blocks)"
-        ok = want in u(e)
-        ctx.ob("public-wiring", f"cubepart.py::_Slice.{prop}", u(e)[:120], want, ok)
+        text = u(e)
+        other = [t for t in ("row_share_sum", "column_share_sum", "total_share_sum") if t != prop and f"self._assemble_matrix(self._measures.{t}.blocks)" in text]
+        ok = True if want in text else (False if other else None)
+        ctx.ob("public-wiring", f"cubepart.py::_Slice.{prop}", text[:120], want, ok)
     som = ctx.repo.cls(MM, "SecondOrderMeasures")
     for prop, c in (("row_share_sum", "_RowShareSum"), ("column_share_sum", "_ColumnShareSum"), ("total_share_sum", "_TotalShareSum")):
         e = expand(ctx.repo, som, prop, stop=lambda m: True)
